@@ -123,36 +123,51 @@ struct Leaf {
     num: &'static [&'static str],
     /// takes an `ellps`
     ellps: bool,
+    /// flag-typed keys the generator binds (`inv` included: it is an ordinary flag of the operator)
+    flags: &'static [&'static str],
     /// every key the operator's constructor looks up (so: every caller argument it can see)
     gamut: &'static [&'static str],
     /// key that must be present for the operator to instantiate
     required: Option<&'static str>,
 }
 
-const LEAVES: [Leaf; 7] = [
+const LEAVES: [Leaf; 9] = [
     Leaf {
         name: "helmert",
         num: &["x", "y", "z", "s", "x", "y", "z", "s", "x", "y", "dx", "t_epoch"],
         ellps: false,
+        flags: &["exact", "inv"],
         gamut: &[
-            "translation", "x", "y", "z", "velocity", "dx", "dy", "dz", "rotation", "rx", "ry", "rz", "angular_velocity", "drx", "dry",
+            "inv", "translation", "x", "y", "z", "velocity", "dx", "dy", "dz", "rotation", "rx", "ry", "rz", "angular_velocity", "drx", "dry",
             "drz", "convention", "exact", "scale", "s", "scale_trend", "ds", "t_epoch", "t_obs",
         ],
         required: None,
     },
-    Leaf { name: "utm", num: &["zone"], ellps: true, gamut: &["south", "ellps", "zone"], required: Some("zone") },
+    Leaf { name: "utm", num: &["zone"], ellps: true, flags: &["south", "inv", "south"], gamut: &["inv", "south", "ellps", "zone"], required: Some("zone") },
     Leaf {
         name: "tmerc",
         num: &["lat_0", "lon_0", "k_0", "x_0", "y_0"],
         ellps: true,
-        gamut: &["ellps", "lat_0", "lon_0", "x_0", "y_0", "k_0"],
+        flags: &["inv"],
+        gamut: &["inv", "ellps", "lat_0", "lon_0", "x_0", "y_0", "k_0"],
         required: None,
     },
-    Leaf { name: "cart", num: &[], ellps: true, gamut: &["ellps"], required: None },
-    Leaf { name: "addone", num: &[], ellps: false, gamut: &[], required: None },
-    Leaf { name: "noop", num: &[], ellps: false, gamut: &[], required: None },
+    Leaf { name: "cart", num: &[], ellps: true, flags: &["inv"], gamut: &["inv", "ellps"], required: None },
+    Leaf { name: "addone", num: &[], ellps: false, flags: &["inv"], gamut: &["inv"], required: None },
+    // (noop has no `inv` in its gamut)
+    Leaf { name: "noop", num: &[], ellps: false, flags: &[], gamut: &[], required: None },
     // only reached through the built-in macros geo:in ... enu:out
-    Leaf { name: "adapt", num: &[], ellps: false, gamut: &["from", "to"], required: None },
+    Leaf { name: "adapt", num: &[], ellps: false, flags: &[], gamut: &["inv", "from", "to"], required: None },
+    // only in the enumeration of binding forms (flag-typed keys)
+    Leaf { name: "geodesic", num: &[], ellps: true, flags: &["reversible", "inv"], gamut: &["inv", "reversible", "ellps"], required: None },
+    Leaf {
+        name: "latitude",
+        num: &[],
+        ellps: true,
+        flags: &["geocentric", "inv"],
+        gamut: &["inv", "geocentric", "reduced", "parametric", "conformal", "authalic", "rectifying", "ellps"],
+        required: None,
+    },
 ];
 
 fn leaf_spec(name: &str) -> Option<&'static Leaf> {
@@ -177,8 +192,31 @@ const ELL_POOL: [&str; 4] = ["ellps", "e", "ellps_in", "ell"];
 const NUM_LITS: [&str; 16] = ["1", "2", "3", "5", "7", "10", "32", "33", "60", "12", "4", "21", "45", "0.25", "-3", "100"];
 const ELL_LITS: [&str; 6] = ["GRS80", "intl", "bessel", "WGS84", "clrk66", "krass"];
 
+/// names of flag-typed macro parameters (bound to a bare word or `true` only)
+const FLAG_POOL: [&str; 5] = ["back", "f", "south", "exact", "g"];
+const FLAG_LITS: [&str; 1] = ["true"];
+const FLAG_KEYS: [&str; 5] = ["inv", "south", "exact", "reversible", "geocentric"];
+
 fn is_ell_name(n: &str) -> bool {
     ELL_POOL.contains(&n)
+}
+fn is_flag_name(n: &str) -> bool {
+    FLAG_POOL.contains(&n) || FLAG_KEYS.contains(&n)
+}
+/// parameter types: 0 numeric, 1 ellipsoid name, 2 flag
+fn pool_of(ty: u8) -> &'static [&'static str] {
+    match ty {
+        0 => &NUM_POOL,
+        1 => &ELL_POOL,
+        _ => &FLAG_POOL,
+    }
+}
+fn lits_of(ty: u8) -> &'static [&'static str] {
+    match ty {
+        0 => &NUM_LITS,
+        1 => &ELL_LITS,
+        _ => &FLAG_LITS,
+    }
 }
 
 // ---- the reference expander -------------------------------------------------------------
@@ -270,7 +308,7 @@ struct Expansion {
     nontrivial: bool,
     prefix_macro: bool,
     overflow: bool,
-    forms: BTreeMap<&'static str, u64>,
+    forms: BTreeMap<String, u64>,
     hops_max: u8,
     safe_hops: u64,
 }
@@ -296,6 +334,8 @@ struct Expander {
     next_id: u32,
     out: Expansion,
     budget: usize,
+    /// the parameter being resolved is a flag-typed operator key (evidence only)
+    cur_flag: bool,
 }
 
 fn lit_val(text: &str, origin: usize) -> EnvVal {
@@ -313,7 +353,7 @@ impl Expander {
             // later registrations replace earlier ones, as in the contexts
             map.insert(m.name.clone(), (i as i16, m.body.clone()));
         }
-        Expander { lib: map, next_id: 1, out: Expansion::default(), budget: 20_000 }
+        Expander { lib: map, next_id: 1, out: Expansion::default(), budget: 20_000, cur_flag: false }
     }
 
     fn initial_env() -> Env {
@@ -388,6 +428,9 @@ impl Expander {
 
     fn bind(&mut self, st: &Step, site: i16, idx: usize, env: &Env, depth: usize) -> Env {
         self.sibling_refs(st);
+        if st.args.iter().any(|a| a.key == "inv") {
+            self.out.unspecified.push(format!("'{}': inv given as key=value on a macro invocation", st.text()));
+        }
         let mut out = env.clone();
         for (ai, a) in st.args.iter().enumerate() {
             let aid: ArgId = (site, idx as u8, ai as u8);
@@ -494,8 +537,9 @@ impl Expander {
         }
     }
 
-    fn form(&mut self, f: &'static str) {
-        *self.out.forms.entry(f).or_insert(0) += 1;
+    fn form(&mut self, f: &str) {
+        let label = if self.cur_flag { format!("flag-key:{f}") } else { f.to_string() };
+        *self.out.forms.entry(label).or_insert(0) += 1;
     }
 
     fn leaf(&mut self, st: &Step, env: &Env, inv: bool, depth: usize) {
@@ -514,6 +558,7 @@ impl Expander {
                 continue;
             }
             let seen = gamut.contains(&k.as_str());
+            self.cur_flag = FLAG_KEYS.contains(&k.as_str());
             match &e.text {
                 Some(t) => {
                     params.insert(k.clone(), (t.clone(), e.flag));
@@ -534,6 +579,7 @@ impl Expander {
         // step-local parameters win
         for a in &st.args {
             let seen = gamut.contains(&a.key.as_str());
+            self.cur_flag = FLAG_KEYS.contains(&a.key.as_str());
             match &a.val {
                 Val::Lit(s) => {
                     params.insert(a.key.clone(), (s.clone(), false));
@@ -543,6 +589,9 @@ impl Expander {
                 }
                 Val::Flag => {
                     params.insert(a.key.clone(), ("true".into(), true));
+                    if seen {
+                        self.form(if env.contains_key(&a.key) { "literal-over-caller-arg" } else { "literal" });
+                    }
                 }
                 Val::Ref(n) => match env.get(n) {
                     Some(e) if e.text.is_some() => {
@@ -614,6 +663,20 @@ impl Expander {
                         }
                     }
                 },
+            }
+        }
+        self.cur_flag = false;
+        // `inv` is a flag of the operator like any other: when it is bound (`inv=$back`, `inv=(true)`)
+        // and comes out true, the step is inverted
+        let mut inv = inv;
+        if let Some((v, _)) = params.get("inv").cloned() {
+            if gamut.contains(&"inv") {
+                if v == "true" {
+                    params.remove("inv");
+                    inv = !inv;
+                } else {
+                    self.out.unspecified.push(format!("{} inv={v}: not a flag value", st.op));
+                }
             }
         }
         self.out.leaves.push(LeafLit { op: st.op.clone(), params, inv });
@@ -770,6 +833,9 @@ fn check_with<C: Context>(case: &Case, rec: &mut Rec) -> CaseResult {
     }
     rec.class(&format!("depth={}", x.max_depth));
     rec.class(&format!("ctx={}", case.ctx));
+    for (f, n) in &x.forms {
+        rec.count(&format!("form:{f}"), *n);
+    }
 
     // 1. `$n` without default whose n the caller does not provide: an error
     if !x.expect_err.is_empty() {
@@ -855,9 +921,6 @@ fn check_with<C: Context>(case: &Case, rec: &mut Rec) -> CaseResult {
         }
     }
 
-    for (f, n) in &x.forms {
-        rec.count(&format!("form:{f}"), *n);
-    }
     rec.count("forwarded-through-invocation-args", x.safe_hops);
     rec.metric("max_level", x.max_level as f64);
     rec.metric("max_forwarding_hops", x.hops_max as f64);
@@ -896,7 +959,7 @@ enum Mode {
 struct RawArg {
     key: u16,
     from_gamut: bool,
-    ell: bool,
+    ty: u8, // 0 numeric, 1 ellipsoid name, 2 flag
     form: u8,
     name: u16,
     biased: bool,
@@ -929,8 +992,9 @@ struct RawCase {
 }
 
 fn raw_arg() -> impl Strategy<Value = RawArg> {
-    (any::<u16>(), prop::bool::weighted(0.9), prop::bool::weighted(0.15), 0u8..20, any::<u16>(), prop::bool::weighted(0.8), any::<u16>(), any::<u16>())
-        .prop_map(|(key, from_gamut, ell, form, name, biased, lit, def)| RawArg { key, from_gamut, ell, form, name, biased, lit, def })
+    // types: 65% numeric, 15% ellipsoid, 20% flag
+    (any::<u16>(), prop::bool::weighted(0.9), 0u8..20, 0u8..20, any::<u16>(), prop::bool::weighted(0.8), any::<u16>(), any::<u16>())
+        .prop_map(|(key, from_gamut, ty, form, name, biased, lit, def)| RawArg { key, from_gamut, ty: if ty < 13 { 0 } else if ty < 16 { 1 } else { 2 }, form, name, biased, lit, def })
 }
 
 fn raw_step() -> impl Strategy<Value = RawStep> {
@@ -986,9 +1050,13 @@ fn inv_of(raw: u8, is_macro: bool, mode: Mode) -> InvPos {
     }
 }
 
-fn val_of(r: &RawArg, key: &str, ell: bool, names: &[String], macro_arg: bool, mode: Mode) -> Val {
-    let lits: &[&str] = if ell { &ELL_LITS } else { &NUM_LITS };
-    let pool: &[&str] = if ell { &ELL_POOL } else { &NUM_POOL };
+/// names that some invocation supplies, by type
+struct Names([Vec<String>; 3]);
+
+fn val_of(r: &RawArg, key: &str, ty: u8, names: &Names, macro_arg: bool, mode: Mode) -> Val {
+    let names = &names.0[ty as usize];
+    let lits: &[&str] = lits_of(ty);
+    let pool: &[&str] = pool_of(ty);
     let lit = lits[pick(r.lit, lits.len())].to_string();
     let def = lits[pick(r.def, lits.len())].to_string();
     // names some invocation supplies (those of the outermost invocation come first and twice)
@@ -1003,7 +1071,12 @@ fn val_of(r: &RawArg, key: &str, ell: bool, names: &[String], macro_arg: bool, m
     // 0..20: leaf steps 25% literal, 20% $n, 25% $n(d), 30% (d); invocation arguments 40/25/20/15
     let cut = if macro_arg { [8, 13, 17] } else { [5, 9, 14] };
     if r.form < cut[0] {
-        Val::Lit(lit)
+        // a flag is given as a bare word or as `=true`
+        if ty == 2 && r.lit % 2 == 0 {
+            Val::Flag
+        } else {
+            Val::Lit(lit)
+        }
     } else if r.form < cut[1] {
         Val::Ref(name)
     } else if r.form < cut[2] {
@@ -1025,14 +1098,14 @@ fn tidy_args(args: &mut Vec<Arg>) {
     });
 }
 
-fn interpret_step(r: &RawStep, target: Option<String>, names_num: &[String], names_ell: &[String], mode: Mode) -> Step {
+fn interpret_step(r: &RawStep, target: Option<String>, names: &Names, mode: Mode) -> Step {
     if let Some(t) = target {
         let mut args: Vec<Arg> = r
             .args
             .iter()
             .map(|a| {
-                let key = if a.ell { ELL_POOL[pick(a.key, ELL_POOL.len())] } else { NUM_POOL[pick(a.key, NUM_POOL.len())] };
-                Arg { key: key.to_string(), val: val_of(a, key, a.ell, if a.ell { names_ell } else { names_num }, true, mode) }
+                let key = pool_of(a.ty)[pick(a.key, pool_of(a.ty).len())];
+                Arg { key: key.to_string(), val: val_of(a, key, a.ty, names, true, mode) }
             })
             .collect();
         tidy_args(&mut args);
@@ -1046,28 +1119,27 @@ fn interpret_step(r: &RawStep, target: Option<String>, names_num: &[String], nam
     let spec = &LEAVES[pick(r.leaf, 5)]; // helmert, utm, tmerc, cart, addone
     let mut args: Vec<Arg> = vec![];
     // a required key is always present (in some form)
-    let required_only = [RawArg { key: r.target, from_gamut: true, ell: false, form: r.inv, name: r.leaf, biased: true, lit: r.target, def: r.leaf }];
+    let required_only = [RawArg { key: r.target, from_gamut: true, ty: 0, form: r.inv, name: r.leaf, biased: true, lit: r.target, def: r.leaf }];
     let raws: &[RawArg] = if r.args.is_empty() && spec.required.is_some() { &required_only } else { &r.args };
     for (i, a) in raws.iter().enumerate() {
-        let (key, ell) = if i == 0 && spec.required.is_some() {
-            (spec.required.unwrap().to_string(), false)
-        } else if a.from_gamut && a.ell && spec.ellps {
-            ("ellps".to_string(), true)
+        let (key, ty) = if i == 0 && spec.required.is_some() {
+            (spec.required.unwrap().to_string(), 0)
+        } else if a.from_gamut && a.ty == 2 && !spec.flags.is_empty() {
+            (spec.flags[pick(a.key, spec.flags.len())].to_string(), 2)
+        } else if a.from_gamut && a.ty == 1 && spec.ellps {
+            ("ellps".to_string(), 1)
         } else if a.from_gamut && !spec.num.is_empty() {
-            (spec.num[pick(a.key, spec.num.len())].to_string(), false)
-        } else if a.ell {
-            (ELL_POOL[pick(a.key, ELL_POOL.len())].to_string(), true)
+            (spec.num[pick(a.key, spec.num.len())].to_string(), 0)
         } else {
-            (NUM_POOL[pick(a.key, NUM_POOL.len())].to_string(), false)
+            (pool_of(a.ty)[pick(a.key, pool_of(a.ty).len())].to_string(), a.ty)
         };
-        let val = val_of(a, &key, ell, if ell { names_ell } else { names_num }, false, mode);
+        let val = val_of(a, &key, ty, names, false, mode);
         args.push(Arg { key, val });
     }
-    if spec.name == "utm" && r.kind % 5 == 0 {
-        args.push(Arg { key: "south".into(), val: Val::Flag });
-    }
     tidy_args(&mut args);
-    Step { op: spec.name.into(), args, inv: inv_of(r.inv, false, mode) }
+    // a bound `inv` replaces the positional modifier
+    let inv = if args.iter().any(|a| a.key == "inv") { InvPos::No } else { inv_of(r.inv, false, mode) };
+    Step { op: spec.name.into(), args, inv }
 }
 
 fn arg_mut<'a>(lib: &'a mut [Macro], top: &'a mut [Step], id: ArgId) -> Option<&'a mut Arg> {
@@ -1078,7 +1150,13 @@ fn arg_mut<'a>(lib: &'a mut [Macro], top: &'a mut [Step], id: ArgId) -> Option<&
 fn literal_for(a: &Arg) -> Val {
     match &a.val {
         Val::RefDef(_, d) | Val::Def(d) => Val::Lit(d.clone()),
-        _ => Val::Lit(if is_ell_name(&a.key) { "intl".into() } else { "4".into() }),
+        _ => Val::Lit(if is_flag_name(&a.key) {
+            "true".into()
+        } else if is_ell_name(&a.key) {
+            "intl".into()
+        } else {
+            "4".into()
+        }),
     }
 }
 
@@ -1087,14 +1165,9 @@ fn build_case(raw: &RawCase, mode: Mode) -> Case {
     let name_of = |i: usize| format!("{}:m{}", ["lib", "p", "geo"][i % 3], i);
     // names that some invocation supplies: references are biased towards them so that
     // bindings resolve often
-    let mut names_num: Vec<String> = vec![];
-    let mut names_ell: Vec<String> = vec!["ellps".into()];
+    let mut names = Names([vec![], vec!["ellps".into()], vec![]]);
     for a in raw.top_args.iter().chain(raw.top_args.iter()).chain(raw.top_args.iter()).chain(raw.macros.iter().take(n).flatten().filter(|s| s.kind < 7).flat_map(|s| s.args.iter())) {
-        if a.ell {
-            names_ell.push(ELL_POOL[pick(a.key, ELL_POOL.len())].to_string());
-        } else {
-            names_num.push(NUM_POOL[pick(a.key, NUM_POOL.len())].to_string());
-        }
+        names.0[a.ty as usize].push(pool_of(a.ty)[pick(a.key, pool_of(a.ty).len())].to_string());
     }
     let mut lib: Vec<Macro> = vec![];
     for i in 0..n {
@@ -1110,12 +1183,12 @@ fn build_case(raw: &RawCase, mode: Mode) -> Case {
             } else {
                 None
             };
-            body.push(interpret_step(r, target, &names_num, &names_ell, mode));
+            body.push(interpret_step(r, target, &names, mode));
         }
         if i < raw.depth && !has_chain {
             // the nesting chain 0 -> 1 -> ... -> depth
             let k = pick(raw.force[i], raws.len());
-            body[k] = interpret_step(&raws[k], Some(name_of(i + 1)), &names_num, &names_ell, mode);
+            body[k] = interpret_step(&raws[k], Some(name_of(i + 1)), &names, mode);
         }
         lib.push(Macro { name: name_of(i), body });
     }
@@ -1157,12 +1230,12 @@ fn build_case(raw: &RawCase, mode: Mode) -> Case {
         .top_args
         .iter()
         .map(|a| {
-            let key = if a.ell { ELL_POOL[pick(a.key, ELL_POOL.len())] } else { NUM_POOL[pick(a.key, NUM_POOL.len())] };
-            let mut v = val_of(a, key, a.ell, if a.ell { &names_ell } else { &names_num }, true, Mode::Forwarding);
+            let key = pool_of(a.ty)[pick(a.key, pool_of(a.ty).len())];
+            let mut v = val_of(a, key, a.ty, &names, true, Mode::Forwarding);
             // the outermost invocation has no caller: mostly literal values
             if a.form % 5 != 0 || mode != Mode::Forwarding {
-                let lits: &[&str] = if a.ell { &ELL_LITS } else { &NUM_LITS };
-                v = Val::Lit(lits[pick(a.lit, lits.len())].to_string());
+                let lits: &[&str] = lits_of(a.ty);
+                v = if a.ty == 2 && a.lit % 2 == 0 { Val::Flag } else { Val::Lit(lits[pick(a.lit, lits.len())].to_string()) };
             }
             Arg { key: key.to_string(), val: v }
         })
@@ -1170,7 +1243,7 @@ fn build_case(raw: &RawCase, mode: Mode) -> Case {
     tidy_args(&mut top_args);
     let main = Step { op: name_of(0), args: top_args, inv: inv_of(raw.top_inv, true, mode) };
     let simple = |r: &RawStep| -> Step {
-        let mut s = interpret_step(&RawStep { kind: 10, ..r.clone() }, None, &[], &[], mode);
+        let mut s = interpret_step(&RawStep { kind: 10, ..r.clone() }, None, &Names([vec![], vec![], vec![]]), mode);
         // outside any macro there is nothing to bind to
         for a in s.args.iter_mut() {
             if !matches!(a.val, Val::Lit(_) | Val::Flag) {
@@ -1231,8 +1304,61 @@ fn build_case(raw: &RawCase, mode: Mode) -> Case {
 /// is visible in the output): K the operator key, P the inner macro's parameter, Q the outer
 /// macro's parameter; every form of the leaf binding x every form of the nested invocation
 /// argument x every subset of {s, x, y} given by the outermost caller. All literals distinct.
-const FORMS_N: usize = 27 * 5 * 5 * 8 + 9 * 5 * 8;
+const VALUE_FORMS_N: usize = 27 * 5 * 5 * 8 + 9 * 5 * 8;
+const FLAG_FORMS_N: usize = 5 * 3 * 6 * 8 + 5 * 3 * 6 * 3 * 5 * 8;
+const FORMS_N: usize = VALUE_FORMS_N + FLAG_FORMS_N;
+
+/// The same for flag-typed operator keys: utm south, addone inv, helmert exact, geodesic reversible,
+/// latitude geocentric; forms of the operator parameter {absent, bare word, =true, $P, $P(true), (true)},
+/// forms of the nested invocation argument P {absent, bare word, $Q, $Q(true), (true)}; P, Q over
+/// {f, g, K} (K itself, h for inv); every subset of the three names given by the outermost caller
+/// (as a bare word or as =true). `K=$P` without a P must be an error whatever the type of K.
+fn flag_forms_case(i: usize) -> Case {
+    let lit = |k: &str, v: &str| Arg { key: k.into(), val: Val::Lit(v.into()) };
+    let (direct_n, nested) = (5 * 3 * 6 * 8, i >= 5 * 3 * 6 * 8);
+    let j = if nested { i - direct_n } else { i };
+    let (leaf_k, p, fi) = (j % 5, (j / 5) % 3, (j / 15) % 6);
+    let (q, fo, subset) = if nested { ((j / 90) % 3, (j / 270) % 5, j / 1350) } else { (0, 0, j / 90) };
+    let (op, key, fixed): (&str, &str, Vec<Arg>) = match leaf_k {
+        0 => ("utm", "south", vec![lit("zone", "32")]),
+        1 => ("addone", "inv", vec![]),
+        2 => ("helmert", "exact", vec![lit("rx", "1"), lit("ry", "2"), lit("rz", "3"), lit("convention", "position_vector")]),
+        3 => ("geodesic", "reversible", vec![]),
+        _ => ("latitude", "geocentric", vec![]),
+    };
+    let names = ["f", "g", if key == "inv" { "h" } else { key }];
+    let mut args = fixed;
+    match fi {
+        0 => {}
+        1 => args.push(Arg { key: key.into(), val: Val::Flag }),
+        2 => args.push(lit(key, "true")),
+        3 => args.push(Arg { key: key.into(), val: Val::Ref(names[p].into()) }),
+        4 => args.push(Arg { key: key.into(), val: Val::RefDef(names[p].into(), "true".into()) }),
+        _ => args.push(Arg { key: key.into(), val: Val::Def("true".into()) }),
+    }
+    let top_args: Vec<Arg> = (0..3)
+        .filter(|b| subset & (1 << b) != 0)
+        .map(|b| if b % 2 == 0 { Arg { key: names[b].into(), val: Val::Flag } } else { lit(names[b], "true") })
+        .collect();
+    let inner = Macro { name: "i:m".into(), body: vec![Step { op: op.into(), args, inv: InvPos::No }] };
+    if !nested {
+        return Case { ctx: (i % 3) as u8, lib: vec![inner], top: vec![Step { op: "i:m".into(), args: top_args, inv: InvPos::No }], twin: InvPos::Suffix, excluded_known: 0 };
+    }
+    let call_args: Vec<Arg> = match fo {
+        0 => vec![],
+        1 => vec![Arg { key: names[p].into(), val: Val::Flag }],
+        2 => vec![Arg { key: names[p].into(), val: Val::Ref(names[q].into()) }],
+        3 => vec![Arg { key: names[p].into(), val: Val::RefDef(names[q].into(), "true".into()) }],
+        _ => vec![Arg { key: names[p].into(), val: Val::Def("true".into()) }],
+    };
+    let outer = Macro { name: "o:m".into(), body: vec![Step { op: "i:m".into(), args: call_args, inv: InvPos::No }] };
+    Case { ctx: (i % 3) as u8, lib: vec![outer, inner], top: vec![Step { op: "o:m".into(), args: top_args, inv: InvPos::No }], twin: InvPos::Infix, excluded_known: 0 }
+}
+
 fn forms_case(i: usize) -> Case {
+    if i >= VALUE_FORMS_N {
+        return flag_forms_case(i - VALUE_FORMS_N);
+    }
     let names = ["s", "x", "y"];
     let top_vals = ["11", "12", "13"];
     let form = |f: usize, key: &str, name: &str, lit: &str, def: &str| -> Option<Arg> {
@@ -1563,7 +1689,7 @@ fn main() {
 
     run.enumerate(
         "binding-forms",
-        "exhaustive: helmert K=<form> inside i:m, invoked directly or as i:m P=<form> from o:m; forms {absent, literal, $n, $n(d), (d)} for both, K,P,Q over {s,x,y}^3 (every lexical order and coincidence), every subset of {s,x,y} supplied by the outermost caller, 3 contexts, plus the inverted twin; non-trivial = a binding resolved through >= 1 nesting level",
+        "exhaustive: helmert K=<form> inside i:m, invoked directly or as i:m P=<form> from o:m; forms {absent, literal, $n, $n(d), (d)} for both, K,P,Q over {s,x,y}^3 (every lexical order and coincidence), every subset of {s,x,y} supplied by the outermost caller, 3 contexts, plus the inverted twin; the same for flag-typed keys (utm south, addone inv, helmert exact, geodesic reversible, latitude geocentric: forms {absent, bare word, =true, $n, $n(true), (true)}, names over {f,g,K}); non-trivial = a binding resolved through >= 1 nesting level",
         FORMS_N,
         forms_case,
         check,
